@@ -5,6 +5,7 @@
   regions starting with `excluded:` — to an exclusion the property text itself makes.
 -/
 import SqlizeModel.Spec.Props
+import SqlizeModel.Proofs.TableOrder
 import SqlizeModel.Impl.Builder
 
 namespace Sqlize.Spec.Scope
@@ -207,6 +208,20 @@ def c04 (g : Globals) (revs : List (List Stmt)) (conv : Bool := false) : Option 
   | .postgres => some "postgres-migrations-not-rereadable"
   | .sqlite => some "sqlite-one-statement-per-call"
   | .mysql => c04Pairs conv g [] revs
+
+/-- C04, the fingerprint clause: `HashValue` lists the table digests in table order, and the history lists a created table
+    after the tables it already had — a revision that lists a new table before a table the previous revision had (or
+    changes the relative order of the common tables) has another fingerprint than the history that reaches it, although
+    the next diff is empty (recorded finding; `C04.model_fingerprint` proves the clause for the other chains,
+    `ChainOrdered`) -/
+def c04Order : List String → List (List Stmt) → Option String
+  | _, [] => none
+  | prev, r :: rest =>
+    match execAll true [] r with
+    | none => some "excluded:ill-formed-input"
+    | some db =>
+      let names := db.map (·.name)
+      if namesAfter prev names != names then some "fingerprint-table-order" else c04Order names rest
 
 -- ---------------------------------------------------------------------------------------------------------------
 -- struct declarations (C06, C10)
